@@ -173,12 +173,61 @@ func genSchemaDoc(t *rapid.T) string {
 	return b.String()
 }
 
+// respellKey rewrites the key of "key = value" (or the last part of a "[table]" header) as a quoted key in which some
+// letters are replaced by capitals or by characters that lower-case / fold to them (dotted capital I, Kelvin sign, long s):
+// matching of such keys differs between strings.ToLower, strings.EqualFold and byte comparison.
+func respellKey(t *rapid.T, line string) string {
+	fold := func(k string) string {
+		rs := []rune(k)
+		for n := rapid.IntRange(1, 2).Draw(t, "folds"); n > 0 && len(rs) > 0; n-- {
+			i := rapid.IntRange(0, len(rs)-1).Draw(t, "foldAt")
+			switch rs[i] {
+			case 'i':
+				rs[i] = rapid.SampledFrom([]rune{'I', '\u0130', '\u0131'}).Draw(t, "foldI")
+			case 'k':
+				rs[i] = rapid.SampledFrom([]rune{'K', '\u212a'}).Draw(t, "foldK")
+			case 's':
+				rs[i] = rapid.SampledFrom([]rune{'S', '\u017f'}).Draw(t, "foldS")
+			default:
+				rs[i] = []rune(strings.ToUpper(string(rs[i])))[0]
+			}
+		}
+		return `"` + string(rs) + `"`
+	}
+	trim := strings.TrimSpace(line)
+	indent := line[:len(line)-len(strings.TrimLeft(line, " "))]
+	switch {
+	case strings.HasPrefix(trim, "[") && strings.HasSuffix(trim, "]"):
+		open, closeB := "[", "]"
+		inner := strings.Trim(trim, "[]")
+		if strings.HasPrefix(trim, "[[") {
+			open, closeB = "[[", "]]"
+		}
+		parts := strings.Split(inner, ".")
+		if len(parts) == 0 || strings.ContainsAny(parts[len(parts)-1], `" `) {
+			return line
+		}
+		parts[len(parts)-1] = fold(parts[len(parts)-1])
+		return indent + open + strings.Join(parts, ".") + closeB
+	case strings.Contains(trim, "="):
+		j := strings.Index(line, "=")
+		k := strings.TrimSpace(line[:j])
+		if k == "" || strings.ContainsAny(k, `" .`) {
+			return line
+		}
+		return indent + fold(k) + " " + line[j:]
+	}
+	return line
+}
+
 func mutateText(t *rapid.T, text string) string {
 	lines := strings.Split(text, "\n")
 	n := rapid.IntRange(1, 3).Draw(t, "mutations")
 	for i := 0; i < n && len(lines) > 0; i++ {
 		pos := rapid.IntRange(0, len(lines)-1).Draw(t, "line")
-		switch rapid.IntRange(0, 10).Draw(t, "mutation") {
+		switch rapid.IntRange(0, 11).Draw(t, "mutation") {
+		case 11: // respell the key of a line (or the name in a table header): other letter case, or letters that only fold to ASCII
+			lines[pos] = respellKey(t, lines[pos])
 		case 0: // delete a line
 			lines = append(lines[:pos], lines[pos+1:]...)
 		case 1: // duplicate a line
